@@ -8,7 +8,9 @@ From Aplang Require Import Base FloatX Token Ast Tables Value EvalImpl HeapProof
 Theorem C04_index_below_one : forall idx, PrimFloat.leb 1 idx = false -> index_of idx = usize_max.
 Proof. exact index_below_one. Qed.
 
-Theorem C04_no_element_at_usize_max : forall A (l : list A), nth_N l usize_max = None.
+(** ... for every list the machine can hold (at most usize::MAX elements; a Coq [list] has no such bound) *)
+Theorem C04_no_element_at_usize_max : forall A (l : list A),
+  (N.of_nat (length l) <= usize_max)%N -> nth_N l usize_max = None.
 Proof. exact no_element_at_usize_max. Qed.
 
 (** reading position k succeeds exactly for k inside the sequence, and yields that element *)
